@@ -51,3 +51,19 @@ Proof.
   eexists. split; [vm_compute; reflexivity|]. split; [vm_compute; reflexivity|].
   eexists. split; [vm_compute; reflexivity|]. split; reflexivity.
 Qed.
+
+(* repaired loop, a complete run: both tasks run, shutdown, the worker is woken by the
+   shutdown's notify_all, exits, await_shutdown returns *)
+Definition w_fixed_suffix : list label :=
+  [ LWork 3 false WTake None; LTaskDone 3 false; LWork 3 false WWaitO None;
+    LSdG 1; LSdP 1; LWork 3 false WExitSd None; LDrop 3 DEnd; LAwait 2 ARet ].
+
+Lemma fixed_loop_full_run :
+  exists s, run true w_init (w_prefix ++ w_fixed_suffix) = Some s /\
+            reachable true s /\ await_returned s /\ next s = 2 /\ done s = [1; 0] /\
+            psd s = true /\ gsd s = true.
+Proof.
+  eexists. split; [vm_compute; reflexivity|].
+  split; [exists w_init, (w_prefix ++ w_fixed_suffix); split; [exact w_initial | vm_compute; reflexivity]|].
+  split; [exists 2; reflexivity|]. repeat split; reflexivity.
+Qed.
